@@ -15,6 +15,9 @@ pub enum MarshalError {
     /// Errors occuring while validating the input
     #[error("Errors occured while validating: {0}")]
     Validation(#[from] crate::params::validation::Error),
+    /// The message would be longer than 128MiB or an array in it longer than 64MiB
+    #[error("The message would be longer than 128MiB or an array in it longer than 64MiB")]
+    MessageTooLong,
 }
 
 //--------
